@@ -178,3 +178,70 @@ def check_forwarding(prog, res, fn, call, target, rule='W1', aliases=None,
                     '%s.%s (cross-wired or constant)' % (
                         p, tname, norm_text(val)[:50], owner, '/'.join(exps)))
   return n
+
+
+# ---------------------------------------------------------------------------
+def find_add_weights(prog, fn):
+  """[(call, name expr text, kw dict)] for self.add_weight(...) in fn."""
+  out = []
+  for c in ast.walk(fn.node):
+    if (isinstance(c, ast.Call) and isinstance(c.func, ast.Attribute)
+        and c.func.attr == 'add_weight' and dotted(c.func.value) == 'self'):
+      kw = {k.arg: k.value for k in c.keywords if k.arg}
+      name = c.args[0] if c.args else kw.get('name')
+      out.append((c, norm_text(name) if name is not None else '?', kw))
+  return out
+
+
+def constraint_sources(fn, expr):
+  """The expressions a `constraint=` argument may evaluate to, following one
+  level of local definitions: [(value expr, stmt)]."""
+  ctx = FnCtx.of(fn)
+  if isinstance(expr, ast.Name):
+    at = ctx.cfg.node_containing(expr)
+    out = []
+    for d, v in ctx.rd.def_exprs(at, expr.id):
+      n = ctx.cfg.nodes[d]
+      out.append((v, n.stmt))
+    return out
+  if isinstance(expr, ast.IfExp):
+    return [(expr.body, None), (expr.orelse, None)]
+  return [(expr, None)]
+
+
+def check_constrained_weight(prog, res, fn, weight_name, constraint_cls,
+                             rule='W2', implications=None,
+                             covered_elsewhere=None):
+  """The add_weight of `weight_name` passes constraint=<instance of
+  constraint_cls> on every configuration in which that constraint acts."""
+  from . import guards
+  sites = [s for s in find_add_weights(prog, fn) if weight_name in s[1]]
+  if len(sites) != 1:
+    raise AnalysisError('%s: expected exactly one add_weight of %s, found %d' %
+                        (fn.qualname, weight_name, len(sites)))
+  call, name, kw = sites[0]
+  key = '%s|%s' % (fn.qualname, weight_name)
+  cexpr = kw.get('constraint')
+  if cexpr is None or is_none(cexpr):
+    res.violation(rule, key, fn.loc(call),
+                  'variable %s is created without constraint= ; the optimizer '
+                  'never re-applies %s' % (weight_name, constraint_cls.name))
+    return
+  srcs = constraint_sources(fn, cexpr)
+  inst = None
+  for v, st in srcs:
+    if v is None:
+      continue
+    for c in ast.walk(v):
+      if isinstance(c, ast.Call) and prog.resolve_call(fn, c) is constraint_cls:
+        inst = c
+  if inst is None:
+    res.violation(rule, key, fn.loc(call),
+                  'constraint= of %s is %s, never an instance of %s' % (
+                      weight_name, norm_text(cexpr)[:40], constraint_cls.name))
+    return
+  res.ok(rule, key, fn.loc(call), 'constraint=%s may hold %s(...)' % (
+      norm_text(cexpr)[:30], constraint_cls.name))
+  guards.check_guard(prog, res, fn, inst, constraint_cls, rule=rule,
+                     key=key + '|guard', implications=implications,
+                     covered_elsewhere=covered_elsewhere)
